@@ -536,6 +536,31 @@ func checkRuntimeRelease(c *report.Ctx) {
 			}
 			okBudget = hasLen && hasConst
 			detail = sprintf("prefix length is len(runtimeRelease) or the constant %d for an empty one: %v", unknownLen, okBudget)
+		} else if x, isLen := an.LenArg(pl); isLen {
+			// the length of the very variable that is emitted as the prefix: the release, or the substituted name where
+			// it is empty, chosen first - exact by construction, provided that variable IS what every emission starts with
+			if ph, k := x.(*ssa.Phi); k && ph.Type().String() == "string" {
+				hasParam, hasConst := false, false
+				for _, e := range ph.Edges {
+					if _, isP := e.(*ssa.Parameter); isP {
+						hasParam = true
+					}
+					if sv, isC := an.ConstString(e); isC && sv != "" {
+						hasConst = true
+						unknownLen = int64(len(sv))
+					}
+				}
+				starts := true
+				for _, ch := range concatChains(f) {
+					if len(ch.leaves) == 0 || ch.leaves[0] != ssa.Value(ph) {
+						starts = false
+					}
+				}
+				okBudget = hasParam && hasConst && starts
+				detail = sprintf("prefix length is the length of the emitted prefix variable itself (release, or a %d-byte name for an empty one): %v", unknownLen, okBudget)
+			} else {
+				detail = "the prefix length does not account for the substituted name of an empty user agent"
+			}
 		} else {
 			detail = "the prefix length does not account for the substituted name of an empty user agent"
 		}
